@@ -383,11 +383,24 @@ func (ex *Exec) appendSlices(st *State, s, y T) T {
 
 // ------------------------------------------------------------------ locks / monitors
 
+// canonTerm: two loads of the same cell get two alias constants; the lock object is the same when their definitions are.
+func (ex *Exec) canonTerm(s string) string {
+	for i := 0; i < 8; i++ {
+		d, ok := ex.defs[s]
+		if !ok {
+			break
+		}
+		s = d
+	}
+	return s
+}
+
 func (ex *Exec) lockKeyOf(st *State, v ssa.Value) string {
+	canon := ex.canonTerm
 	if l, ok := ex.locs[v]; ok {
 		switch l := l.(type) {
 		case LocHeapField:
-			return fieldHeapName(l.owner, l.idx) + "@" + l.ref.s
+			return fieldHeapName(l.owner, l.idx) + "@" + canon(l.ref.s)
 		case LocSubField:
 			return l.String()
 		case LocGlobal:
@@ -687,6 +700,31 @@ func (ex *Exec) havocMaps(st *State) {
 
 // beforeHooks checks the `before <callee>` assertions of the contract at a call site; $arg0, $arg1, ... are the
 // call's arguments (for methods $arg0 is the receiver).
+// beforeChanSend: `before chansend label: P` is asserted where the function sends on a channel (a send statement or a
+// select with a send case); $arg0 is the value sent.
+func (ex *Exec) beforeChanSend(st *State, sent ssa.Value, pos token.Pos) {
+	if ex.con == nil || ex.con.Before == nil || ex.con.Before["chansend"] == nil {
+		return
+	}
+	env := ex.specEnv(st, ex.entry, false)
+	if sent != nil {
+		env.vars["ĦĦarg0"] = TV{ex.val(st, sent), sent.Type()}
+	}
+	for i, cl := range ex.con.Before["chansend"] {
+		t, err := env.evalBool(cl.Expr)
+		if err != nil {
+			ex.fail("before chansend %q: %v", cl.Src, err)
+			continue
+		}
+		label := cl.Label
+		if label == "" {
+			label = fmt.Sprintf("%d", i+1)
+		}
+		ex.vc.oblige("assert", fmt.Sprintf("assert:%s@chansend#%s", ex.conName(), label), st.guard, t, ex.pos(pos)).SetNote(cl.Src)
+		ex.beforeSeen["chansend"] = true
+	}
+}
+
 func (ex *Exec) beforeHooks(st *State, calleeName string, c *ssa.CallCommon, pos token.Pos) {
 	if ex.con == nil || ex.con.Before == nil {
 		return
